@@ -881,6 +881,18 @@ def list_builder(fn, name):
 
 
 def returned_map(fn):
+    """see _returned_map; a source that is itself `map(f, S)` with a plain function name f is folded into the element: (w, S, E[f(_c0)])"""
+    r = _returned_map(fn)
+    import re as _re
+    while r is not None:
+        m = _re.fullmatch(r"map\(([A-Za-z_][A-Za-z_0-9.]*), (.+)\)", r[1] or "")
+        if not m or "(" in m.group(2).split(",")[0] and False:
+            break
+        r = (r[0], m.group(2), _re.sub(r"\b_c0\b", f"{m.group(1)}(_c0)", r[2]))
+    return r
+
+
+def _returned_map(fn):
     """what a function returns when that is one value per element of a sequence, in order:
     (wrapper, iterable text, element text over `_c0`) with wrapper None (a list) or "join:<sep>" (`sep.join(...)`); None otherwise"""
     rets = [r for r in own_nodes(fn) if isinstance(r, ast.Return)]
